@@ -23,6 +23,8 @@ KIT_L = [
     'nbdime.diffing.seq_bruteforce.bruteforce_lcs_indices', 'nbdime.diffing.seq_bruteforce.diff_sequence_bruteforce',
     'nbdime.diff_utils.count_consumed_symbols', 'nbdime.diffing.sequences.diff_sequence',
     'nbdime.diffing.generic.diff_lists',
+    'nbdime.diffing.seq_bruteforce.bruteforce_compute_snakes', 'nbdime.diffing.snakes.compute_snakes',
+    'nbdime.diffing.snakes.compute_snakes_multilevel', 'nbdime.diffing.snakes.compute_snakes_multilevel#rect',
     'nbdime.diffing.snakes.compute_diff_from_snakes', 'nbdime.diffing.generic.diff_sequence_multilevel',
     # Kit M (mapping diff / patch)
     'nbdime.patching.patch_dict',
